@@ -29,11 +29,11 @@ pub static DEF_C02: CheckDef = CheckDef {
     id: "C02",
     run: run_c02,
     replay: replay_c02,
-    rule: "every defined encoding (501) as a one-instruction block (plus a fixed terminator when it is not one itself) x all 16 flag states (both outcomes of every conditional JP/JR/CALL/RET) x initial cycle counts {0, 5}; then sums over proptest-generated multi-instruction blocks (same generator as C01 layer 3). Compared: Registers.cycles after the translated block vs after interpreter::run_code_block. Non-trivial = distinct (encoding, branch outcome) pairs plus distinct generated blocks with at least two instructions.",
+    rule: "every defined encoding (501) as a one-instruction block (plus a fixed terminator when it is not one itself) x all 16 flag states (both outcomes of every conditional JP/JR/CALL/RET) x initial cycle counts {0, 5}; then sums over proptest-generated multi-instruction blocks (same generator as C01 layer 3). Compared: Registers.cycles after the translated block vs after interpreter::run_code_block. Through the emulator's own dispatch: the bank-switching cache-pressure program of C04, with the run of every bank ending at a different offset, so that the blocks of different banks differ in length (the translation area fills up and restarts several times while banks other than 1 are mapped) is block-stepped on the jit build and on the interpreter build, and last_block_cycle_length must agree after every block. Non-trivial = distinct (encoding, branch outcome) pairs plus distinct generated blocks with at least two instructions.",
     assumptions: &[
         "the interpreter's cycle counts are the reference (pinned to the published SM83 table by C06)",
     ],
-    required_classes: &["taken", "not-taken", "multi-instruction"],
+    required_classes: &["taken", "not-taken", "multi-instruction", "dispatch-under-cache-pressure", "translation-area-restarted"],
     exhaustive: false,
 };
 
@@ -1282,9 +1282,63 @@ fn run_c02(rec: &mut Rec) {
         let cases = rec.ctx.tier.pick(40_000u32, 3_000_000);
         run_generated_blocks(rec, Scope::Cycles, cases);
     }
+    // through the emulator's own dispatch, with the translation area filling up and
+    // restarting while the program switches ROM banks: every block's charge must still
+    // be the interpreter's for the instructions mapped at that moment
+    if rec.ctx.shard == 1 || rec.ctx.nshards < 2 {
+        pressure_cycles(rec, rec.ctx.tier.pick(700, 8000));
+    }
+}
+
+fn pressure_cycles(rec: &mut Rec, steps: u32) {
+    use crate::mach::i;
+    let case = json!({"kind": "cache-pressure-cycles", "steps": steps});
+    rec.current(&case.to_string());
+    rec.eval(steps as u64);
+    rec.class("dispatch-under-cache-pressure", 1);
+    rec.nontrivial(fnv(case.to_string().as_bytes()));
+    let rom = crate::checks::c04::pressure_rom3();
+    let mut jit = j::M::new(&rom);
+    let mut int = i::M::new(&rom);
+    let mut restarts = 0u32;
+    let mut used_before = 0usize;
+    for step in 0..steps {
+        let pc0 = int.regs().pc;
+        let bank = int.rom_bank();
+        let r = guarded(|| {
+            int.step_block();
+            jit.step_block();
+        });
+        if let Err(m) = r {
+            rec.violation("pressure-panic", case.clone(), format!("step {} (block at {:#06x}): panicked: {}", step, pc0, m));
+            return;
+        }
+        let used = jit.cache_used();
+        if used < used_before {
+            restarts += 1;
+        }
+        used_before = used;
+        let (cj, ci) = (jit.last_block_cycles(), int.last_block_cycles());
+        if cj != ci {
+            rec.violation("pressure-cycles", case.clone(), format!("step {} (block at {:#06x}, ROM bank {}, {} restarts of the translation area so far): translated code charged {} machine cycles, the interpreter {} for the instructions mapped there", step, pc0, bank, restarts, cj, ci));
+            return;
+        }
+        if jit.regs() != int.regs() {
+            // the engines no longer execute the same instructions: C03 / C04 report that
+            rec.class("pressure-run-ended-on-a-state-difference", 1);
+            return;
+        }
+    }
+    if restarts > 0 {
+        rec.class("translation-area-restarted", restarts as u64);
+    }
 }
 
 fn replay_c02(case: &Value, rec: &mut Rec) {
+    if case.get("kind").and_then(|k| k.as_str()) == Some("cache-pressure-cycles") {
+        pressure_cycles(rec, case.get("steps").and_then(|v| v.as_u64()).unwrap_or(700) as u32);
+        return;
+    }
     replay_scope(case, rec, Scope::Cycles)
 }
 
